@@ -47,6 +47,10 @@ theorem gen_createRefused (a c r e : Bool) :
     (Gen.createRefused true a c r e = true) ↔ (a = true ∨ c = true ∨ r = true ∨ e = true) := by
   cases a <;> cases c <;> cases r <;> cases e <;> simp [Gen.createRefused]
 
+theorem gen_createRecheckRefused (a c r e : Bool) :
+    (Gen.createRecheckRefused a c r e = true) ↔ (a = true ∨ c = true ∨ r = true ∨ e = true) := by
+  cases a <;> cases c <;> cases r <;> cases e <;> simp [Gen.createRecheckRefused]
+
 theorem gen_joinRefused (a b : Nat) : (Gen.joinRefused a b = true) ↔ maxJoined ≤ a + b := by
   simp [Gen.joinRefused, maxJoined]
 
@@ -80,6 +84,9 @@ theorem gen_createdMatches (p q : Prop) [Decidable p] [Decidable q] :
 theorem gen_createdRefused (ep sh c r e : Bool) :
     (Gen.createdRefused ep sh c r e = true) ↔ (ep = false ∨ sh = false ∨ c = true ∨ r = true ∨ e = true) := by
   cases ep <;> cases sh <;> cases c <;> cases r <;> cases e <;> simp [Gen.createdRefused]
+
+/-- join_circuit constructs the CreatedRequestCache (which refuses a second one for the id) before it writes the table -/
+theorem gen_joinCacheFirst : Gen.joinCacheFirst = true := rfl
 
 /-- the conversion of an exit socket into a relay pair removes the socket with remove_now=True -/
 theorem gen_convertRemovesNow : Gen.convertRemovesNow = true := rfl
@@ -222,6 +229,16 @@ theorem onCreated_noLog (n : Node) (cid ident key authPk dhRef : Nat) (ch : Choi
     | split at ho
     | dsimp only at ho)
 
+theorem joinNow_noLog (n : Node) (src cid ident pk dh : Nat) :
+    ∀ o ∈ (joinNow A n src cid ident pk dh).2, o.isLog = false := by
+  intro o ho
+  unfold joinNow joinCircuit at ho
+  repeat' (first
+    | exact sendMsg_noLog A _ _ _ _ o ho
+    | (simp at ho; done)
+    | split at ho
+    | dsimp only at ho)
+
 theorem onCreate_noLog (n : Node) (src cid ident pk dh : Nat) :
     ∀ o ∈ (onCreate A n src cid ident pk dh).2, o.isLog = false := by
   intro o ho
@@ -229,6 +246,7 @@ theorem onCreate_noLog (n : Node) (src cid ident pk dh : Nat) :
   repeat' (first
     | exact sendMsg_noLog A _ _ _ _ o ho
     | (simp at ho; done)
+    | exact joinNow_noLog A _ _ _ _ _ _ o ho
     | split at ho
     | dsimp only at ho)
 
@@ -459,16 +477,29 @@ theorem onData_qo (n : Node) (src cid dest org tag : Nat) (hq : QueueOwn n) :
   unfold onData
   exact key _
 
+theorem joinNow_qo (n : Node) (src cid ident pk dh : Nat) (hq : QueueOwn n) :
+    QueueOwn (joinNow A n src cid ident pk dh).1 := by
+  unfold joinNow joinCircuit
+  split
+  · exact hq
+  · split
+    · exact hq
+    · dsimp only
+      split
+      · split
+        · exact hq
+        · exact qo_set cid ⟨⟨pk, src, n.freshKey⟩, 0, []⟩ rfl (by intro q hqm; simp at hqm) hq
+      · refine qo_set cid ⟨⟨pk, src, n.freshKey⟩, 0, []⟩ ?_ (by intro q hqm; simp at hqm) hq
+        rw [sendMsg_exits]
+
 theorem onCreate_qo (n : Node) (src cid ident pk dh : Nat) (hq : QueueOwn n) :
     QueueOwn (onCreate A n src cid ident pk dh).1 := by
   unfold onCreate
   split
   · exact hq
   · split
-    · exact hq
-    · dsimp only
-      refine qo_set cid ⟨⟨pk, src, n.freshKey⟩, 0, []⟩ ?_ (by intro q hqm; simp at hqm) hq
-      rw [sendMsg_exits]
+    · exact qo_same rfl hq
+    · exact joinNow_qo A n src cid ident pk dh hq
 
 theorem oursCreated_exits (n : Node) (cid : Nat) (circ : Circ) (key authPk dhRef : Nat) (ch : Choice) :
     (oursCreated A n cid circ key authPk dhRef ch).1.exits = n.exits := by
@@ -600,6 +631,11 @@ theorem dec_other_key_none {B : Type} {A : Aead B} (L : AeadLaws A) (k k' : Nat)
     have h1 := L.dec_some _ _ _ _ hd
     have h2 := L.enc_inj _ _ _ _ _ _ h1
     exact absurd ⟨h2.1, h2.2.1⟩ h
+
+theorem sendCell_created {B : Type} (A : Aead B) (n : Node) (dst : Nat) (c : Cell B) (x : Bool) :
+    (sendCell A n dst c x).1.created = n.created := by
+  unfold sendCell
+  cases get n.circuits c.cid <;> (dsimp only; split <;> rfl)
 
 theorem sendCell_relays {B : Type} (A : Aead B) (n : Node) (dst : Nat) (c : Cell B) (x : Bool) :
     (sendCell A n dst c x).1.relays = n.relays ∧ (sendCell A n dst c x).1.exits = n.exits := by
